@@ -35,7 +35,8 @@ EXPLANATION = (
     'on the interpolation and forwards kernel, units, sizes and clip_inputs '
     '(H5); the contraction pairs weights with the kernel over the vertex axis '
     '(H6).'
-    ' Also decided: list inputs keep one bucket per dimension and tensor inputs are bucketed by consecutive runs only (H7; any other grouping is unrecognised, exit 2); with clip_inputs on every return path passes a clip (X5); the simplex cell corner is capped from below as well as from above; no loop variable is read after its loop (X6); tuple lattice_sizes are converted before list concatenation (T3); tensors built in the evaluation code take their dtype from an operand (D1).')
+    ' Also decided: list inputs keep one bucket per dimension and tensor inputs are bucketed by consecutive runs only (H7; any other grouping is unrecognised, exit 2); with clip_inputs on every return path passes a clip (X5); the simplex cell corner is capped from below as well as from above; no loop variable is read after its loop (X6); tuple lattice_sizes are converted before list concatenation (T3); tensors built in the evaluation code take their dtype from an operand (D1).'
+    ' Nothing is computed from the inputs before they are clipped when a clip of the inputs follows (X5, before-use clause).')
 ASSUMPTIONS = ['tf.sort/argsort/pad/cumsum/gather/reshape semantics; kernel '
                'layout (prod(lattice_sizes), units), vertices row-major']
 
